@@ -27,6 +27,10 @@ func BuildMapCodec(p CodecBuilder, registry CodecRegistry, typ reflect.Type, tag
 		return nil, fmt.Errorf("type must be a map to build a map codec")
 	}
 
+	if typ.Elem().Kind() == reflect.Map {
+		return nil, fmt.Errorf("maps of maps are not supported")
+	}
+
 	keyCodec, err := p.CodecForTypeRegistry(registry, typ.Key(), "")
 	if err != nil {
 		return nil, fmt.Errorf("failed to find codec for map key %s. %w", typ.Key().Name(), err)
